@@ -1326,6 +1326,21 @@ def d2_libraries():
     libs.append(("byname.present", ["cell A", "refname B 0.001,0.002 0 1 0", "cell B", "poly 0 0 0,0 0.002,0 0.002,0.001"], {}))
     libs.append(("byname.absent", ["cell A", "refname GHOSTCELL_WITH_A_LONG_NAME_OVER_28_CHARS 0.001,0.002 0 1 0", "poly 0 0 0,0 0.002,0 0.002,0.001"], {"absent": ["GHOSTCELL_WITH_A_LONG_NAME_OVER_28_CHARS"]}))
     libs.append(("pointer.outside", ["cell A", "ref X 0.001,0.002 0 1 0", "poly 0 0 0,0 0.002,0 0.002,0.001", "xcell X", "poly 1 1 0,0 0.1,0 0.1,0.1"], {"absent": ["X"], "outside_pointer": True}))
+    long_ptr = "NOT_ADDED_CELL_WITH_A_LONG_NAME_40_CHARS"
+    long_nam = "ABSENT_CELL_REFERRED_BY_NAME_40_CHARS_XY"
+    assert len(long_ptr) == 40 and len(long_nam) == 40
+    body = ["poly 0 0 0,0 0.002,0 0.002,0.001"]
+    libs.append(("outside.long.pointer", ["cell A", "ref %s 0.001,0.002 0 1 0" % long_ptr] + body + ["xcell " + long_ptr, "poly 1 1 0,0 0.1,0 0.1,0.1"],
+                 {"absent": [long_ptr], "outside_pointer": True}))
+    libs.append(("outside.long.pointer+short.pointer", ["cell A", "ref %s 0.001,0.002 0 1 0" % long_ptr, "ref X2 0,0 0 1 0"] + body + ["xcell " + long_ptr, "poly 1 1 0,0 0.1,0 0.1,0.1", "xcell X2"],
+                 {"absent": [long_ptr, "X2"], "outside_pointer": True}))
+    libs.append(("outside.short.pointer+long.pointer", ["cell A", "ref X2 0,0 0 1 0", "ref %s 0.001,0.002 0 1 0" % long_ptr] + body + ["xcell " + long_ptr, "xcell X2", "poly 1 1 0,0 0.1,0 0.1,0.1"],
+                 {"absent": [long_ptr, "X2"], "outside_pointer": True}))
+    libs.append(("outside.long.name+short.name", ["cell A", "refname %s 0.001,0.002 0 1 0" % long_nam, "refname Y2 0,0 0 1 0"] + body, {"absent": [long_nam, "Y2"]}))
+    libs.append(("outside.long.pointer+short.name", ["cell A", "ref %s 0.001,0.002 0 1 0" % long_ptr, "refname Y2 0,0 0 1 0"] + body + ["xcell " + long_ptr],
+                 {"absent": [long_ptr, "Y2"], "outside_pointer": True}))
+    libs.append(("outside.long.name+short.pointer", ["cell A", "refname %s 0.001,0.002 0 1 0" % long_nam, "ref X2 0,0 0 1 0", "cell B", "ref X2 0.003,0 0 1 0"] + body + ["xcell X2"],
+                 {"absent": [long_nam, "X2"], "outside_pointer": True}))
     libs.append(("unit.2000", ["lib L2 1e-06 5e-10"] + leaf + ["cell T", "ref LEAF 0.0005,0.0015 0 1 1", "rep exy 2 0.01 0.0205"], {}))
     libs.append(("unit.mm", ["lib LMM 0.001 1e-06", "cell A", "poly 0 0 0,0 2,0 2,1", "label 0 0 1,1 6d6d", "cell T", "ref A 5,5 %s 1 0" % fnum(0.5 * math.pi)], {}))
     libs.append(("many.polys", ["cell A"] + ["poly %d %d %s" % (i, i % 3, " ".join(pt((x + 10 * i, y)) for x, y in [(0, 0), (5 + i, 0), (5 + i, 3), (0, 3)][:4])) for i in range(12)]
